@@ -53,6 +53,9 @@ pub enum CidForm {
     Upper,
     Padded,
     Dup,
+    /// two X-Client-Id headers with DIFFERENT ids: this client's and one that is not on the
+    /// allow-list (true: this client's id first)
+    DupMixed(bool),
 }
 
 #[derive(Clone, Debug, Serialize, Deserialize, PartialEq)]
@@ -196,6 +199,7 @@ fn gen_wire_op(r: &mut Rng, n_clients: u8, page: u32, allow_big: bool) -> WireOp
                 w.cid = *r.pick(&[
                     CidForm::Absent, CidForm::Empty, CidForm::NonAscii, CidForm::HighBytes, CidForm::TooShort, CidForm::TooLong, CidForm::Garbage,
                     CidForm::Braced, CidForm::Urn, CidForm::Simple, CidForm::Upper, CidForm::Padded, CidForm::Dup,
+                    CidForm::DupMixed(true), CidForm::DupMixed(false), CidForm::DupMixed(false),
                 ])
             }
             1 => {
@@ -245,6 +249,7 @@ pub fn gen_plan(seed: u64, backend: Backend, thorough: bool) -> WirePlan {
         whole_sec: false,
         allow_restart: false,
         allow_seed: false,
+        foreign_lock_pct: 0,
     };
     let setup = seq::gen_ops(&mut r, &p, n_clients, &cfg, page);
     let allow = match r.weighted(&[30, 12, 30, 28]) {
@@ -330,13 +335,15 @@ struct Built {
     /// the client id is absent or not parseable by any reading
     cid_bad: bool,
     cid_ambiguous: bool,
+    /// duplicate client-id headers naming a listed and an unlisted client
+    mixed_dup: bool,
     /// the protocol request this is a form of (routes with semantics only)
     req: Option<Req>,
     big: bool,
     label: String,
 }
 
-fn build(plan: &WirePlan, w: &World, op: &WireOp) -> Built {
+fn build(plan: &WirePlan, w: &World, op: &WireOp, cur_allow: &Option<HashSet<Uuid>>) -> Built {
     let cid = client_id(plan.seed, op.c);
     let idv = ops::resolve(plan.seed, &w.model, plan.n_clients, op.c, &op.id);
     let mut class = Class::WellFormed;
@@ -435,6 +442,7 @@ fn build(plan: &WirePlan, w: &World, op: &WireOp) -> Built {
     let mut headers: Vec<(String, Vec<u8>)> = Vec::new();
     let mut cid_bad = false;
     let mut cid_ambiguous = false;
+    let mut mixed_dup = false;
     let protocol_route = !matches!(op.route, Route::Index | Route::Unknown(_));
     let h = "X-Client-Id".to_string();
     match op.cid {
@@ -488,6 +496,27 @@ fn build(plan: &WirePlan, w: &World, op: &WireOp) -> Built {
             cid_ambiguous = true;
             headers.push((h.clone(), cid.to_string().into_bytes()));
             headers.push((h, cid.to_string().into_bytes()))
+        }
+        CidForm::DupMixed(mine_first) => {
+            cid_ambiguous = true;
+            // the other id: a client of this world that is not listed (it may own data from before
+            // the list existed), else an unrelated id; without a list it degrades to a plain duplicate
+            let other = match cur_allow {
+                Some(a) if a.contains(&cid) => w.clients.iter().find(|c| !a.contains(c)).cloned().or(Some(ops::fresh_id(plan.seed, 5100))),
+                _ => None,
+            };
+            match other {
+                Some(o) => {
+                    mixed_dup = true;
+                    let (a, b) = if mine_first { (cid, o) } else { (o, cid) };
+                    headers.push((h.clone(), a.to_string().into_bytes()));
+                    headers.push((h, b.to_string().into_bytes()))
+                }
+                None => {
+                    headers.push((h.clone(), cid.to_string().into_bytes()));
+                    headers.push((h, cid.to_string().into_bytes()))
+                }
+            }
         }
     }
     if protocol_route {
@@ -608,6 +637,7 @@ fn build(plan: &WirePlan, w: &World, op: &WireOp) -> Built {
         class,
         cid_bad,
         cid_ambiguous,
+        mixed_dup,
         req,
         big,
         label,
@@ -675,7 +705,7 @@ pub fn exec(plan: &WirePlan) -> RunOut {
             }
             WOp::Wire(op) => op,
         };
-        let b = build(plan, &w, op);
+        let b = build(plan, &w, op, &cur_allow);
         let cid = client_id(plan.seed, op.c);
         let protocol_route = !matches!(op.route, Route::Index | Route::Unknown(_));
         let is_listed = listed(&cid, &cur_allow);
@@ -759,6 +789,8 @@ pub fn exec(plan: &WirePlan) -> RunOut {
             w.proj = after;
             continue;
         }
+        let nv_class = out.violations.len();
+        let mixed_dup = b.mixed_dup;
         match b.class {
             Class::Malformed => {
                 if !is4xx {
@@ -834,6 +866,16 @@ pub fn exec(plan: &WirePlan) -> RunOut {
                     } else if let Some(d) = &changed {
                         out.violations.push(viol(&["C15", "C18"], "wire.refused_changed_state", format!("{} changed state: {d}", b.label)));
                     }
+                }
+                if mixed_dup {
+                    // acceptable: refused, or served as the listed client; anything else means a
+                    // request carrying an unlisted id was served under it
+                    for v in out.violations[nv_class..].iter_mut() {
+                        v.props.push("C16".into());
+                        v.oracle = "allow.served_with_unlisted_identity".into();
+                        v.msg = format!("a request carrying a listed and an unlisted client id was neither refused nor served as the listed client: {}", v.msg);
+                    }
+                    out.bump("probe.mixed_duplicate_client_id_headers");
                 }
                 if let Some(a) = served_after {
                     w.proj = a;
